@@ -415,3 +415,31 @@ Theorem sort_edges_order_invariant : forall ns es1 es2 sites1 sites2 m1 m2 i1 i2
      edge_le (node_time ns) x y = true -> edge_le (node_time ns) y x = true -> x = y) ->
   sort_edges (mkT ns es1 sites1 m1 i1 p1) = sort_edges (mkT ns es2 sites2 m2 i2 p2).
 Proof. exact CanonInvariance.sort_edges_order_invariant. Qed.
+
+(* ---- last round: more of "the canonical form does not depend on the row order" ---- *)
+(* sites: two site tables that are permutations of each other (distinct positions) come out of the
+   sorter identical, whatever the mutation tables and the mutation comparison *)
+Theorem sorted_sites_order_invariant : forall mle1 mle2 ss1 ss2 ms1 ms2 ss1' ms1' ss2' ms2',
+  Permutation ss1 ss2 ->
+  (forall x y, In x ss1 -> In y ss1 -> s_pos x = s_pos y -> x = y) ->
+  sort_sites_mutations mle1 ss1 ms1 = Ok (ss1', ms1') ->
+  sort_sites_mutations mle2 ss2 ms2 = Ok (ss2', ms2') ->
+  ss1' = ss2'.
+Proof. exact CanonInvariance.sorted_sites_order_invariant. Qed.
+
+(* populations, with the id renaming carried through: if the population rows are permuted by an
+   injective [pi] and the node table renamed accordingly, subset (hence canonicalise, whose
+   population table is subset's) retains the same population rows in the same output order and
+   gives every node the same new population id *)
+Theorem populations_order_invariant : forall t nodes pi pops2,
+  refs_in_range t = true ->
+  (forall p q, in_range (zlen (t_populations t)) p = true -> in_range (zlen (t_populations t)) q = true ->
+               pi p = pi q -> p = q) ->
+  (forall p, in_range (zlen (t_populations t)) p = true -> 0 <= pi p) ->
+  (forall p row, getz (t_populations t) p = Ok row -> getz pops2 (pi p) = Ok row) ->
+  let t2 := mkT (map (rename_node_pop pi) (t_nodes t)) (t_edges t) (t_sites t) (t_mutations t)
+                (t_individuals t) pops2 in
+  rows_of pops2 (pop_order t2 nodes) = rows_of (t_populations t) (pop_order t nodes) /\
+  (forall u r, node_row t u = Some r ->
+     remap_ref (pop_map t2 nodes false) (rename_ref pi (n_pop r)) = remap_ref (pop_map t nodes false) (n_pop r)).
+Proof. exact populations_order_invariant_lemma. Qed.
